@@ -194,8 +194,7 @@ Ref World::apply_stmts_decls(const Op& op)
    case OP_block_add_stmt: {
       if (blocks.empty()) { Op o; o.code = OP_make_block; o.a[0] = op.a[0]; nested(o); }
       impl::Block* b = blocks.pick(op.a[0]);
-      const ipr::Expr& x = E(op.a[1]);
-      if (nref(x) == nref(*b)) return nullptr;
+      const ipr::Expr& x = Eo(op.a[1], nref(*b));          // members are older than their container: the graph stays acyclic
       touching = b;
       SUT(b->add_stmt(x));
       if (Rec* rc = rec(nref(*b))) rc->exp.append("body", nref(x));
@@ -243,14 +242,16 @@ Ref World::apply_stmts_decls(const Op& op)
       }
       note_scope(h->body().lexical_region);
       if (Rec* rc = rec(nref(*b))) rc->exp.append("handlers", nref(hi));
+      print_parent[nref(hi)] = nref(*b);
+      print_parent[nref(ex)] = nref(*b);
       handlers.add(h); stmts.add(&hi); decls.add(&ex); add_stmt_handle(*this, h);
       return nref(hi);
    }
    case OP_handler_add_stmt: {
       if (handlers.empty()) return nullptr;
       impl::Handler* h = handlers.pick(op.a[0]);
-      const ipr::Expr& x = E(op.a[1]);
-      if (nref(x) == nref(*h) or nref(x) == nref(h->body())) return nullptr;
+      // the handler is printed in place by its (older) block: its statements must be older than that block
+      const ipr::Expr& x = Eo(op.a[1], bound_for(nref(static_cast<const ipr::Handler&>(*h))));
       touching = h;
       SUT(h->body().add_stmt(x));
       if (Rec* rc = rec(nref(static_cast<const ipr::Block&>(h->body())))) rc->exp.append("body", nref(x));
@@ -267,6 +268,7 @@ Ref World::apply_stmts_decls(const Op& op)
    case OP_make_alias: case OP_make_var: case OP_make_field: case OP_make_bitfield: case OP_make_typedecl:
    case OP_make_fundecl: case OP_make_primary_template: case OP_make_secondary_template: {
       impl::Region& reg_ = R(op.a[0]);
+      if (region_sealed(reg_)) return nullptr;               // the body is printed in place somewhere: it takes no further members
       impl::Scope& sc = reg_.scope;
       ScopeModel& sm = scopes[&sc];
       if (sm.scope == nullptr) { sm.scope = &sc; sm.region = &reg_; }
@@ -383,6 +385,7 @@ Ref World::apply_stmts_decls(const Op& op)
       for (auto& h : homos) if (h.scope == &en->body.scope) hm = &h;
       if (hm == nullptr) return nullptr;
       for (auto& de : hm->decls) if (de.name == &nm) return nullptr;          // names are pairwise distinct within one enumeration
+      if (sealed_bodies.count(nref(*en))) return nullptr;
       touching = hm->scope;
       impl::Enumerator* m = SUT(en->add_member(nm));
       const int64_t pos = int64_t(hm->decls.size());
@@ -406,6 +409,7 @@ Ref World::apply_stmts_decls(const Op& op)
       for (auto& h : homos) if (h.scope == &c->base_subobjects.scope) hm = &h;
       if (hm == nullptr) return nullptr;
       for (auto& de : hm->decls) if (de.type == &t or nref(*de.name) == tn) return nullptr;   // base types pairwise distinct
+      if (sealed_bodies.count(nref(*c))) return nullptr;
       touching = hm->scope;
       impl::Base_type* m = SUT(c->declare_base(t));
       const int64_t pos = int64_t(hm->decls.size());
@@ -449,6 +453,7 @@ Ref World::apply_stmts_decls(const Op& op)
       hm->decls.push_back({ m, &nm, &t, code });
       if (Rec* rc = rec(nref(static_cast<const ipr::Parameter_list&>(*pl)))) rc->exp.append("elements", nref(*m));
       REG(static_cast<const ipr::Parameter&>(*m), e, true);
+      if (auto po = print_parent.find(nref(static_cast<const ipr::Parameter_list&>(*pl))); po != print_parent.end()) print_parent[nref(*m)] = po->second;
       iparams.add(m); params.add(m); decls.add(m); add_stmt_handle(*this, m);
       return nref(*m);
    }
